@@ -84,4 +84,7 @@ CHECKS = {
     "C31": dict(engine=_C, technique="runtime monitoring: dict-based reference model on generated AgentDef arguments and create_agents calls (list, int list, range, tuple-of-lists indexes)",
                 text="Held on the executions observed: route(self)==0, specific routes, default route, specific/default hosting costs, extra attributes and extra_attr() match the model on known and unknown names, and every mass-created agent matches, accessor by accessor, an individually built AgentDef with the same arguments.",
                 note="Finite name universe (5 agents, 4 computations) plus unknown names."),
+    "C19": dict(engine=_A, technique="runtime monitoring: offline order/exactly-once checker over histories recorded on a real Agent + Messaging queue stepped deterministically by the harness",
+                text="Held on the executions observed: in every generated history of receptions, posts, start, pauses and resumes each received message was handled exactly once, per-sender handling order equals reception order, held messages kept their relative order and preceded every message received after they were first held, and posts made while paused reached the sink exactly once in posting order.",
+                note="The harness loop (next_msg/_handle_message/run/pause_computations) stands for the agent thread; thousands of held messages and paused posts per run (counters)."),
 }
